@@ -236,6 +236,74 @@ def restore_names(j, inventory):
     return done
 
 
+def restore_field_names(j, verif_dir):
+    """a private field that was renamed (same struct, same position, same type) gets its reviewed name back in every
+    place projection, so that rules phrased over field names keep their anchors"""
+    p = os.path.join(verif_dir, "spec", "known_fields.json")
+    if not os.path.exists(p):
+        return []
+    inv = json.load(open(p))
+    taken = set()
+    for adt, variants in inv.items():
+        for vn, fields in variants:
+            for i, f in enumerate(fields):
+                taken.add((i, f))
+    ren = {}
+    for a in j.get("adts", []):
+        old = inv.get(a["path"])
+        if old is None or len(old) != len(a["variants"]):
+            continue
+        for (vn, fields), v in zip(old, a["variants"]):
+            if len(fields) != len(v["fields"]):
+                continue
+            for i, (of, nf) in enumerate(zip(fields, v["fields"])):
+                if of != nf["name"] and (i, nf["name"]) not in taken and not nf["name"].isdigit():
+                    ren[".%d:%s" % (i, nf["name"])] = ".%d:%s" % (i, of)
+                    nf["name"] = of
+    if not ren:
+        return []
+
+    def fix_place(pl):
+        if isinstance(pl, dict) and "p" in pl and isinstance(pl["p"], list):
+            pl["p"] = [ren.get(e, e) for e in pl["p"]]
+
+    def fix_op(o):
+        if isinstance(o, dict):
+            for k in ("c", "m"):
+                if k in o:
+                    fix_place(o[k])
+    for b in j["bodies"]:
+        for d in b.get("dbg", []) or []:
+            fix_place(d.get("p"))
+        for bl in b["blocks"]:
+            for st in bl["s"]:
+                fix_place(st["d"])
+                rv = st["rv"]
+                for k in ("o", "a", "b", "n"):
+                    if isinstance(rv.get(k), dict):
+                        fix_op(rv[k])
+                if isinstance(rv.get("p"), dict):
+                    fix_place(rv["p"])
+                for o in rv.get("ops", []) or []:
+                    fix_op(o)
+            t = bl["t"]
+            if not t:
+                continue
+            if t["t"] == "call":
+                for a_ in t["a"]:
+                    fix_op(a_)
+                fix_place(t["d"])
+            elif t["t"] == "switch":
+                fix_op(t["o"])
+            elif t["t"] == "assert":
+                fix_op(t["c"])
+                for o in t.get("ops", []) or []:
+                    fix_op(o)
+            elif t["t"] == "drop":
+                fix_place(t["p"])
+    return ["field %s <- %s" % (v, k) for k, v in ren.items()]
+
+
 def apply(j, verif_dir):
     p = os.path.join(verif_dir, "spec", "known_functions.json")
     if not os.path.exists(p):
@@ -245,6 +313,7 @@ def apply(j, verif_dir):
     backup = copy.deepcopy(j["bodies"])
     try:
         renamed = restore_names(j, inventory) if isinstance(inventory, dict) else []
+        renamed += restore_field_names(j, verif_dir)
         return renamed + inline_new_helpers(j, known)
     except Exception as e:          # never let view normalisation break a check
         j["bodies"] = backup
